@@ -165,6 +165,7 @@ type Env struct {
 	flags   map[string]bool
 	closed  bool
 	segsMax int
+	liveMax int
 	Trace   []Op
 }
 
@@ -287,6 +288,9 @@ func (e *Env) Apply(op Op) {
 }
 
 func (e *Env) noteLayout() {
+	if len(e.M.Live) > e.liveMax {
+		e.liveMax = len(e.M.Live)
+	}
 	names, err := listLogs(e.Dir)
 	if err != nil {
 		return
